@@ -378,3 +378,189 @@ pub fn case_strategy(cfg: CaseCfg) -> impl Strategy<Value = ProblemCase> {
 pub fn alpha_list(spec: &ModelSpec, raws: &[Vec<u16>]) -> Vec<Vec<f64>> {
     raws.iter().map(|us| alpha_tame(spec, us, 0)).collect()
 }
+
+// ---------------------------------------------------------------------------------------
+// certified model families (C05, C07 fits, C12-C14, C19)
+
+/// an instance of one of the certified families: observations are generated by the model
+/// itself at (alpha_true, c_true), plus optional Gaussian noise expanded from `noise_seed`
+#[derive(Clone, Debug, Serialize, Deserialize)]
+pub struct FamCase {
+    /// 1 = K exponential decays (+ optional offset), 2 = Gaussian peak + decay + offset,
+    /// 3 = single decay + offset
+    pub family: u8,
+    pub spec: ModelSpec,
+    #[serde(with = "fl::vec")]
+    pub x: Vec<f64>,
+    #[serde(with = "fl::vec")]
+    pub alpha_true: Vec<f64>,
+    /// S columns of M coefficients
+    #[serde(with = "fl::vecvec")]
+    pub c_true: Vec<Vec<f64>>,
+    #[serde(with = "fl::vec")]
+    pub alpha_start: Vec<f64>,
+    /// per-sample noise standard deviations (empty = noiseless)
+    #[serde(with = "fl::vec")]
+    pub sigma: Vec<f64>,
+    pub noise_seed: u64,
+    #[serde(with = "fl::optvec")]
+    pub w: Option<Vec<f64>>,
+    pub f32: bool,
+    pub hand: bool,
+    pub par: bool,
+    pub mrhs: bool,
+}
+
+impl FamCase {
+    pub fn n(&self) -> usize {
+        self.x.len()
+    }
+    pub fn s(&self) -> usize {
+        self.c_true.len()
+    }
+    /// noiseless model values at the truth, S columns of N
+    pub fn clean(&self) -> Vec<Vec<f64>> {
+        let m = self.spec.m();
+        let cols: Vec<Vec<f64>> = (0..m).map(|j| self.spec.eval_col::<f64>(j, &self.x, &self.alpha_true)).collect();
+        self.c_true.iter().map(|c| (0..self.n()).map(|i| (0..m).map(|j| c[j] * cols[j][i]).sum()).collect()).collect()
+    }
+    /// the noise realisation (deterministic function of noise_seed), S columns of N
+    pub fn noise(&self) -> Vec<Vec<f64>> {
+        if self.sigma.is_empty() {
+            return vec![vec![0.0; self.n()]; self.s()];
+        }
+        let mut rng = Rng64::new(self.noise_seed);
+        (0..self.s()).map(|_| (0..self.n()).map(|i| self.sigma[i] * rng.gauss()).collect()).collect()
+    }
+    pub fn observations(&self) -> Vec<Vec<f64>> {
+        let (c, e) = (self.clean(), self.noise());
+        c.iter().zip(&e).map(|(a, b)| a.iter().zip(b).map(|(u, v)| u + v).collect()).collect()
+    }
+    pub fn to_problem_case(&self) -> ProblemCase {
+        ProblemCase {
+            spec: self.spec.clone(),
+            x: self.x.clone(),
+            alpha: self.alpha_start.clone(),
+            y: self.observations(),
+            w: self.w.clone(),
+            eps: None,
+            f32: self.f32,
+            hand: self.hand,
+            par: self.par,
+            mrhs: self.mrhs,
+            reverse_derivs: false,
+        }
+    }
+}
+
+#[derive(Clone, Copy, Debug)]
+pub struct FamCfg {
+    pub max_s: usize,
+    pub min_n: usize,
+    pub max_n: usize,
+    /// relative noise level range (RMS relative to the signal scale); (0,0) = noiseless only
+    pub noise_lo: f64,
+    pub noise_hi: f64,
+    /// fraction (in 1/16) of noiseless instances
+    pub noiseless_16: u16,
+    /// relative distance of the start from the truth
+    pub start_rel: f64,
+    pub allow_f32: bool,
+    /// weights: 0 = never, else classes none / positive with ratio <= 10
+    pub weights: bool,
+    /// heteroscedastic noise with weights = k / sigma_i (C19)
+    pub calibrated_weights: bool,
+}
+
+pub fn family_from_raw(cfg: FamCfg, us: &[u16], seed: u64) -> FamCase {
+    let mut cur = 0usize;
+    let mut u = move || {
+        let v = us[cur % us.len()] as f64 / 65536.0;
+        cur += 1;
+        v
+    };
+    let family = 1 + (u() * 3.0) as u8;
+    let n = cfg.min_n + (u() * (cfg.max_n - cfg.min_n + 1) as f64) as usize;
+    let (spec, alpha_true, x): (ModelSpec, Vec<f64>, Vec<f64>) = match family {
+        1 => {
+            let k = 1 + (u() * 3.0) as usize;
+            let offset = u() < 0.5;
+            let mut taus = vec![0.5 + 1.5 * u()];
+            for _ in 1..k {
+                let r = 3.0 + 2.0 * u();
+                taus.push(taus.last().unwrap() * r);
+            }
+            let mut terms: Vec<Term> = (0..k).map(|i| Term { kind: Kind::Exp, args: vec![i] }).collect();
+            if offset {
+                terms.push(Term { kind: Kind::One, args: vec![] });
+            }
+            let xmax = (3.0 + 2.0 * u()) * taus[k - 1];
+            // quadratically spaced samples: dense where the fast decays live
+            let x = (0..n).map(|i| xmax * (i as f64 / (n - 1) as f64).powi(2)).collect();
+            (ModelSpec { p: k, terms }, taus, x)
+        }
+        2 => {
+            let mu = 3.0 + 4.0 * u();
+            let sg = 0.5 + 1.0 * u();
+            let tau = 1.0 + 3.0 * u();
+            let terms = vec![Term { kind: Kind::Gauss, args: vec![0, 1] }, Term { kind: Kind::Exp, args: vec![2] }, Term { kind: Kind::One, args: vec![] }];
+            let x = (0..n).map(|i| 10.0 * i as f64 / (n - 1) as f64).collect();
+            (ModelSpec { p: 3, terms }, vec![mu, sg, tau], x)
+        }
+        _ => {
+            let tau = 0.5 + 4.5 * u();
+            let xmax = (3.0 + 3.0 * u()) * tau;
+            let terms = vec![Term { kind: Kind::Exp, args: vec![0] }, Term { kind: Kind::One, args: vec![] }];
+            let x = (0..n).map(|i| xmax * i as f64 / (n - 1) as f64).collect();
+            (ModelSpec { p: 1, terms }, vec![tau], x)
+        }
+    };
+    let m = spec.m();
+    let s = if u() < 0.4 { 1 } else { 1 + (u() * cfg.max_s as f64) as usize };
+    let c_true: Vec<Vec<f64>> = (0..s).map(|_| (0..m).map(|_| (0.5 + 4.5 * u()) * if u() < 0.3 { -1.0 } else { 1.0 }).collect()).collect();
+    let alpha_start: Vec<f64> = alpha_true.iter().map(|a| a * (1.0 + cfg.start_rel * (2.0 * u() - 1.0))).collect();
+    let noiseless = (u() * 16.0) < cfg.noiseless_16 as f64 || cfg.noise_hi == 0.0;
+    let flags = (u() * 65536.0) as u32;
+    let mrhs = s > 1 || flags & 1 == 1;
+    let mut case = FamCase {
+        family,
+        spec,
+        x,
+        alpha_true,
+        c_true,
+        alpha_start,
+        sigma: vec![],
+        noise_seed: seed,
+        w: None,
+        f32: cfg.allow_f32 && flags & 6 == 6,
+        hand: flags & 8 == 8,
+        par: flags & 16 == 16,
+        mrhs,
+    };
+    // signal scale
+    let clean = case.clean();
+    let scale = clean.iter().flat_map(|c| c.iter()).fold(0.0f64, |m, v| m.max(v.abs())).max(1e-3);
+    if cfg.calibrated_weights {
+        // heteroscedastic profile with ratio <= 10, weights proportional to 1/sigma_i, or none with constant sigma
+        let level = scale * cfg.noise_lo * (cfg.noise_hi / cfg.noise_lo).powf(u());
+        let hetero = u() < 0.6;
+        let k = if u() < 0.5 { 1.0 } else { 0.25 + 3.75 * u() };
+        let phase = u() * 6.0;
+        let sig: Vec<f64> = (0..n).map(|i| if hetero { level * 10f64.powf(0.5 * ((i as f64 * 0.37 + phase).sin())) } else { level }).collect();
+        case.w = if hetero { Some(sig.iter().map(|s| k / s).collect()) } else { None };
+        case.sigma = sig;
+    } else {
+        if !noiseless {
+            let level = scale * cfg.noise_lo * (cfg.noise_hi / cfg.noise_lo).powf(u());
+            case.sigma = vec![level; n];
+        }
+        if cfg.weights && u() < 0.5 {
+            case.w = Some((0..n).map(|_| 10f64.powf(u() - 0.5)).collect());
+        }
+    }
+    case
+}
+
+pub fn family_strategy(cfg: FamCfg) -> impl Strategy<Value = FamCase> {
+    (proptest::collection::vec(any::<u16>(), 260), any::<u64>()).prop_map(move |(us, seed)| family_from_raw(cfg, &us, seed))
+}
